@@ -19,6 +19,17 @@ def prod_ob(tdir, path, nn, avx, rsz=1, asz=1, asl=None, nrows=1, ncols=1, tmpa=
         name += "/tmp_a"
     if d["ASL"] != nn:
         name += "/asl=N+%d" % (d["ASL"] - nn)
+    import struct
+    na = (1 if path == 0 else asz) * nn
+    nb = nn if path <= 1 else nrows * ncols * nn
+    probe = [str(struct.unpack("<Q", struct.pack("<d", float(((7 * i + 3) % 23) - 11)))[0]) for i in range(na)] + \
+            [str(struct.unpack("<Q", struct.pack("<d", float(((5 * i + 1) % 19) - 9)))[0]) for i in range(nb)]
+    ob = _mk(name, path, nn, rsz, asz, nrows, ncols, d, tdir, avx, timeout)
+    ob.probe_inputs = probe
+    return ob
+
+
+def _mk(name, path, nn, rsz, asz, nrows, ncols, d, tdir, avx, timeout):
     return AlgOb(name, "prod.c", "h_prod", "vf.alg.prod:check_prod",
                  params={"path": path, "nn": nn, "rsz": rsz, "asz": asz, "nrows": nrows, "ncols": ncols}, defs=d, libs=ag.LIBS, unwind=700, inc=[tdir],
                  family=PN[path] + " avx=%d" % avx, timeout=timeout or 900, mem_gb=16,
@@ -34,6 +45,15 @@ def obligations(ctx):
         for avx in (0, 1):
             obs.append(prod_ob(t, 0, nn, avx))
             obs.append(prod_ob(t, 1, nn, avx, 1, 1))
+    # the contracts assumed by the stubs, on the kernels the module really carries (selected by the real fill_module_precomp)
+    from vf.core import Ob
+    for nn in ((2, 16) if ctx.quick else (2, 8, 16, 32)):
+        for avx in (0, 1):
+            for entry in ("h_module_from_znx64", "h_module_to_znx64"):
+                obs.append(Ob("module-conversion/%s/N=%d/avx=%d" % (entry[9:], nn, avx), "conv.c", entry, {"MODULE_CONV": None, "NN": nn, "MM": nn // 2, "AVX": avx},
+                              ag.LIBS, unwind=700, inc=[t], family="module conversion contracts", timeout=1500,
+                              desc="every lane symbolic over the whole window the precision budget needs (|x|<2^50 resp. |x/m|<2^52): the kernel selected for this module meets "
+                                   "the contract that the product analysis substitutes for it"))
     # limb counts / strides / both inverse variants of the scalar-vector path at small N (zero rows are bit-precise in C11/C18; here: values)
     for nn in (4, 8):
         for (rsz, asz) in ((2, 1), (1, 2), (2, 2), (3, 2)):
